@@ -20,9 +20,9 @@ def menu_fn(w):
 
 
 def c09_universe(tier):
-    cs = [b"x", b"0123456789ab", b"abcde"] if tier == "thorough" else [b"x", b"0123456789ab"]
+    cs = [C_ONE, C_MULTI, b"abcde"] if tier == "thorough" else [C_ONE, C_MULTI]
     return dict(pids=["a", "b"], contents=cs, formats=[None, "c"], fake_cid=False,
-                docs=[b"<v0/>", b"<v1/>0123456789"], sym_dirs=(tier == "thorough"))
+                docs=[D_ONE, D_MULTI15], sym_dirs=(tier == "thorough"))
 
 
 def main(tier, replay_payload=None):
